@@ -19,6 +19,10 @@ use tokio::time::{sleep, Duration, Instant};
 #[path = "tests/batch_maker_tests.rs"]
 pub mod batch_maker_tests;
 
+#[cfg(all(test, feature = "hotstuff_verif"))]
+#[path = "/verif/replay/mempool_batch_maker.rs"]
+mod verif_replay;
+
 pub type Transaction = Vec<u8>;
 pub type Batch = Vec<Transaction>;
 
